@@ -105,7 +105,13 @@ def catalogue(n, origin=0, rng=None):
     out.append(SpanSpec('pd.DatetimeIndex[D]', (lambda n=n, o=origin: pd.date_range(start=f'{2001 + o}-02-27', periods=n, freq='D')),
                         [[d, d.strftime('%Y-%m-%d')] for d in dd], [pd.Timestamp('1999-01-01'), '1999-01-01'],
                         text_labels=[d.strftime('%Y-%m-%d') for d in dd]))
+    # absent labels of every hashable kind, whatever the span holds (none of them equals a label of any spec above)
+    for spec in out:
+        spec.absent = list(spec.absent) + [x for x in EXOTIC_ABSENT if not any(type(x) is type(a) and x == a for a in spec.absent)]
     return out
+
+
+EXOTIC_ABSENT = [(9, 9), frozenset({77}), 77.5, b'zz', 10 ** 30, 'nope_', ('zz',), 3 + 4j, -10 ** 6]
 
 
 def pos(labels, label):
